@@ -169,10 +169,12 @@ func main() {
 		}
 	}
 
-	parts := spec.Parts
-	if len(parts) == 0 {
-		parts = []CheckPart{{Pkg: spec.Pkg, Files: spec.Files, ExtraFiles: spec.ExtraFiles, Entries: spec.Entries, Replace: spec.Replace, Tags: spec.Tags}}
+	// the top-level package/entries (if any) form the first part, "parts" add further ones
+	var parts []CheckPart
+	if len(spec.Entries) > 0 {
+		parts = append(parts, CheckPart{Pkg: spec.Pkg, Files: spec.Files, ExtraFiles: spec.ExtraFiles, Entries: spec.Entries, Replace: spec.Replace, Tags: spec.Tags})
 	}
+	parts = append(parts, spec.Parts...)
 	var agg *runner
 	code := 0
 	for _, part := range parts {
